@@ -721,7 +721,8 @@ def _is_same_type(ty: Type | SymbolNode | None, expected: TypeLike) -> bool:
         return _is_same_type(ty.alias.target, expected)
 
     if isinstance(ty, TupleType) and expected is tuple:
-        return True
+        # A named tuple is a TupleType as well, but `tuple(x)` is not redundant for it
+        return ty.partial_fallback.type.fullname == "builtins.tuple"
 
     if isinstance(ty, AnyType) and expected is Any:
         return True
